@@ -58,6 +58,8 @@ impl<'h> FindMatchesImpl<'h> {
         // Split the input a byte position `offset` and create a new char_indices iterator.
         self.char_indices = self.input[offset..].char_indices();
         self.last_position = 0;
+        // The character in front of the new position decides whether a new line starts there.
+        self.last_char = self.input[..offset].chars().next_back().unwrap_or('\0');
         self.offset = offset;
     }
 
@@ -86,7 +88,7 @@ impl<'h> FindMatchesImpl<'h> {
             } else {
                 // The iterator is exhausted.
                 // We should update the line offsets with the last character of the haystack.
-                self.record_line_offset(self.last_position + self.offset, '\0');
+                self.record_line_offset(self.input.len(), '\0');
                 break;
             }
         }
